@@ -62,7 +62,7 @@ func genKnap(t *rapid.T) knapCase {
 	for _, it := range its {
 		sum += it.W
 	}
-	return knapCase{Items: its, Limit: rapid.IntRange(0, sum+2).Draw(t, "limit"), Breaker: rapid.IntRange(0, 3).Draw(t, "breaker"), Salt: rapid.IntRange(0, 1000).Draw(t, "salt")}
+	return knapCase{Items: its, Limit: rapid.IntRange(0, sum+2).Draw(t, "limit"), Breaker: rapid.IntRange(0, 4).Draw(t, "breaker"), Salt: rapid.IntRange(0, 1000).Draw(t, "salt")}
 }
 
 // deterministic tie-breakers: functions of the two candidate lists and a salt only
@@ -81,6 +81,16 @@ func breaker(kind, salt int, replaced *bool) func(old, new []item) bool {
 		return func(old, new []item) bool { r := h(new) < h(old); *replaced = *replaced || r; return r }
 	case 3:
 		return func(old, new []item) bool { r := (h(new)+h(old))%2 == 0; *replaced = *replaced || r; return r }
+	case 4:
+		// a tie-breaker that puts both candidates into a canonical order before comparing them (it reorders the
+		// slices it is given; nothing in the documentation forbids that)
+		return func(old, new []item) bool {
+			sort.Slice(old, func(i, j int) bool { return old[i].ID > old[j].ID })
+			sort.Slice(new, func(i, j int) bool { return new[i].ID > new[j].ID })
+			r := h(new) < h(old)
+			*replaced = *replaced || r
+			return r
+		}
 	}
 	return nil
 }
@@ -190,7 +200,7 @@ func genDp(t *rapid.T) dpCase {
 	for _, it := range its {
 		sum += it.V
 	}
-	c := dpCase{Items: its, Max: rapid.IntRange(0, sum+2).Draw(t, "max"), Overflow: rapid.Bool().Draw(t, "overflow"), Breaker: rapid.IntRange(0, 3).Draw(t, "breaker"), Salt: rapid.IntRange(0, 1000).Draw(t, "salt")}
+	c := dpCase{Items: its, Max: rapid.IntRange(0, sum+2).Draw(t, "max"), Overflow: rapid.Bool().Draw(t, "overflow"), Breaker: rapid.IntRange(0, 4).Draw(t, "breaker"), Salt: rapid.IntRange(0, 1000).Draw(t, "salt")}
 	c.Queries = rapid.SliceOfN(rapid.IntRange(0, c.Max), 0, 4).Draw(t, "queries")
 	return c
 }
@@ -334,7 +344,7 @@ func genBig(t *rapid.T) bigCase {
 		sumW += its[i].W
 		sumV += its[i].V
 	}
-	c := bigCase{Items: its, Overflow: rapid.Bool().Draw(t, "overflow"), Breaker: rapid.IntRange(0, 3).Draw(t, "breaker"), Salt: rapid.IntRange(0, 1000).Draw(t, "salt")}
+	c := bigCase{Items: its, Overflow: rapid.Bool().Draw(t, "overflow"), Breaker: rapid.IntRange(0, 4).Draw(t, "breaker"), Salt: rapid.IntRange(0, 1000).Draw(t, "salt")}
 	c.Limit = rapid.OneOf(rapid.IntRange(0, sumW+2), rapid.IntRange(0, sumW/4+1), rapid.SampledFrom([]int{255, 256, 257, 1023, 1024, 4095, 4096})).Draw(t, "limit")
 	return c
 }
